@@ -1,5 +1,5 @@
 (* C11 -- nothing outside the documented families is trusted by default. *)
-From Skv Require Import PyStr Json Node GetTree Unsafe UnsafeFacts NodeInd Families.
+From Skv Require Import PyStr Json Node GetTree Unsafe UnsafeFacts NodeInd Families TreeWf TreeIds GraphAudit.
 From Gen Require Import Snapshot.
 
 (* per-run obligation over the ~550 default-trusted names extracted from /repo: each carries a family
@@ -50,3 +50,12 @@ Theorem C11_no_list_trusts_defaults_only :
   forall E h, node_trusted E None h = (if uses_T E (h_tag h) then h_extra h else []) ++ defaults E (h_tag h).
 Proof. intros E h. unfold node_trusted. destruct (uses_T E (h_tag h)); reflexivity. Qed.
 Print Assumptions C11_no_list_trusts_defaults_only.
+
+(* On the REAL audit (the graph walk with its cycle guard, shared and cyclic ids included), for every archive:
+   get_untrusted_types reports exactly the audited names of the nodes of the tree that do not trust them. *)
+Theorem C11_report_exact :
+  forall E schema G, get_untrusted_types E schema = Ok G ->
+  exists t m, root_tree E schema = Ok (t, m) /\
+    forall nm, In nm G <-> exists x, sub x t /\ contributes E None x nm.
+Proof. exact report_exact. Qed.
+Print Assumptions C11_report_exact.
